@@ -72,6 +72,7 @@ typedef struct sim_bufent {
 	int src;         /* source id it reads from, -1 for in-memory */
 	int onstack;     /* 1 while it is in the scanner's buffer stack */
 	void *usermem;   /* memory owned by the caller (yy_scan_buffer) */
+	int exhausted;   /* in-memory buffer that was scanned to its end */
 } sim_bufent;
 
 typedef struct sim_inst {
